@@ -498,8 +498,8 @@ def run(rep, tier, seed):
         names, init_limit, max_states, gcap = configs.SMALL + ['crossing.7x7', 'four_rooms.7x7', 'memory_four_rooms.7x7',
                                                                'teleport.7x7', 'keydoor.7x7', 'empty.8x8'], 150, 5000, 4
     else:
-        names, init_limit, max_states, gcap = configs.SMALL + configs.MEDIUM, 300, 8000, 8
-    rs, rt = dyn.run_reach(rep, names, init_limit, max_states, make_hooks, replay, 'closure', group_cap=gcap, lineages=2 if tier == 'quick' else 3)
+        names, init_limit, max_states, gcap = configs.SMALL + ['crossing.7x7', 'four_rooms.7x7', 'memory_four_rooms.7x7', 'keydoor.7x7'], 200, 6000, 4
+    rs, rt = dyn.run_reach(rep, names, init_limit, max_states, make_hooks, replay, 'closure', group_cap=gcap, lineages=2)
     rep.assume('compositions: each built-in transition function alone and the full chain; rewards = reduce_sum of all '
                'precondition-free built-ins (+ precondition-bearing ones where their precondition holds); termination = '
                'reduce_any and reduce_all of the built-ins; custom components out of scope')
